@@ -12,7 +12,7 @@ The model (`DuneVerif/Model/C20.lean`) is tied to dune-common's bindings by the 
 
 Clause of the property → theorems
 * construction from list / tuple / args / buffer / NumPy array: `construct_spec`, `construct_buffer_spec`,
-  `dyn_construct_spec`
+  `dyn_construct_spec`; byte strides of the buffer protocol: `byte_stride_addressing`
 * indexing with Python semantics, IndexError outside `[-n, n)`: `getitem_spec`, `setitem_spec`,
   `getitem_out_of_range_error`, `getitem_out_of_range_untouched`
 * length, iteration: `iter_spec`;  slicing through the buffer view: `slice_spec`, `slice_lists`, `slice_observation`
@@ -40,17 +40,50 @@ theorem construct_spec (n : Nat) (xs : List Int) :
 example : constructLoop 3 [7, 8] = [7, 8, 0] ∧ constructLoop 2 [7, 8, 9] = [7, 8] ∧ constructLoop 2 [] = [0, 0] := by
   decide
 
-/-- The buffer constructor (NumPy array, strided or reversed NumPy view, `array.array`): for every memory, base
-    pointer `off`, stride and shape the result is the first `n` entries *of the buffer* (entry `j` of the buffer is
-    the memory cell `off + j*stride`), zero-filled — independently of what lies between the strided entries. -/
-theorem construct_buffer_spec (n : Nat) (mem : List Int) (off stride : Int) (shape : Nat) :
-    constructBuf n mem off stride shape = construct n ((List.range shape).map (bufEntry mem off stride)) ∧
-    (constructBuf n mem off stride shape).length = n :=
-  ⟨constructBuf_eq n mem off stride shape, constructBuf_length n mem off stride shape⟩
+/-- The buffer constructor (NumPy array, strided or reversed NumPy view, `array.array`, a field of aligned records): the
+    buffer protocol describes the buffer in **bytes** (`ptr`, `strides[0]`); the constructor addresses it in whole doubles,
+    `ptr[i * (stride / 8)]`.  For every memory, every record size `rsz > 0` and field offset, base cell `off`, cell stride
+    and shape: if the buffer has at most one entry or its byte stride `rsz*step` is a multiple of 8 — which is what NumPy's
+    alignment flag, and with it the format check of the constructor, guarantees for every buffer that is accepted — the
+    result is the first `n` entries *of the buffer* (entry `j` is the cell `off + j*step`), zero-filled, independently of
+    what lies between the entries.  The length is `n` for any `buffer_info` whatsoever. -/
+theorem construct_buffer_spec (n : Nat) (mem : List Int) (m : MemLay) (hr : 0 < m.rsz) (off step : Int) (shape : Nat)
+    (hal : shape ≤ 1 ∨ (8 : Int) ∣ (m.rsz : Int) * step) :
+    constructBuf n mem m (bufInfo m off step shape) = construct n ((List.range shape).map (bufEntry mem off step)) ∧
+    (∀ b : BufInfo, (constructBuf n mem m b).length = n) ∧
+    ((bufInfo m off step shape).aligned 8 = true → shape ≤ 1 ∨ (8 : Int) ∣ (m.rsz : Int) * step) :=
+  ⟨constructBuf_eq n mem m hr off step shape hal, fun b => constructBuf_length n mem m b, aligned_stride m off step shape⟩
 
-example : constructBuf 3 [1, 77, 2, 77] 0 2 2 = [1, 2, 0] ∧            -- a[::2] of [1,77,2,77], zero-filled
-    constructBuf 2 [77, 3, 77, 2, 77, 1] 5 (-2) 3 = [1, 2] ∧            -- a[::-2], truncated
-    constructBuf 2 (stridedMem (-2) [1, 2, 3]).1 (stridedMem (-2) [1, 2, 3]).2 (-2) 3 = [1, 2] := by decide
+example : constructBuf 3 [1, 77, 2, 77] {} (bufInfo {} 0 2 2) = [1, 2, 0] ∧            -- a[::2] of [1,77,2,77], zero-filled
+    constructBuf 2 [77, 3, 77, 2, 77, 1] {} (bufInfo {} 5 (-2) 3) = [1, 2] ∧            -- a[::-2], truncated
+    constructBuf 2 (stridedMem (-2) [1, 2, 3]).1 {} (bufInfo {} (stridedMem (-2) [1, 2, 3]).2 (-2) 3) = [1, 2] ∧
+    -- field at byte 8 of 24-byte records, walked backwards: byte stride -24, first entry at byte 56
+    constructBuf 3 [3, 2, 1] { rsz := 24, fo := 8 } (bufInfo { rsz := 24, fo := 8 } 2 (-1) 3) = [1, 2, 3] ∧
+    (bufInfo { rsz := 24, fo := 8 } 2 (-1) 3) = { ptr := 56, stride := -24, shape := 3 } := by decide
+
+/-- Byte addressing versus addressing in whole items.  (1) For records of any size `rsz > 0` the byte address
+    `ptr + j*stride` (`NumPyVector::entry`, NumPy's own indexing) of entry `j` of a buffer is where cell `off + j*step` of the
+    object starts — in particular for a field of packed records, whose byte stride is no multiple of the item size.
+    (2) Addressing in whole items of `w` bytes, `ptr[j * (stride / w)]` with C++'s truncating division, agrees with the byte
+    address **iff** `j = 0` or `w` divides the byte stride; so for a stride that is no multiple of `w` every entry but the
+    first is read from / written to the wrong bytes. -/
+theorem byte_stride_addressing (m : MemLay) (hr : 0 < m.rsz) (off step : Int) (len j : Nat) (w : Nat) (hw : 0 < w)
+    (b : BufInfo) :
+    m.cellAt (entryAddr (bufInfo m off step len) j) = some (off + (j : Int) * step) ∧
+    (elemAddr w b j = entryAddr b j ↔ (j = 0 ∨ (w : Int) ∣ b.stride)) ∧
+    (¬ (w : Int) ∣ b.stride → 0 < j → elemAddr w b j ≠ entryAddr b j) := by
+  refine ⟨cellAt_entryAddr m hr off step len j, elemAddr_eq_iff w hw b j, ?_⟩
+  intro hnd hj he
+  cases (elemAddr_eq_iff w hw b j).1 he with
+  | inl h0 => omega
+  | inr hd => exact hnd hd
+
+-- `rec["x"]` of records `(x: f8, id: i4)`: 12 bytes per record.  Entry 1 is at byte 12 (cell 1); whole-item addressing
+-- reads it at byte 8, where no double starts; with stride -20 the truncation gives -16.
+example : entryAddr (bufInfo { rsz := 12 } 0 1 4) 1 = 12 ∧ elemAddr 8 (bufInfo { rsz := 12 } 0 1 4) 1 = 8 ∧
+    ({ rsz := 12 } : MemLay).cellAt 12 = some 1 ∧ ({ rsz := 12 } : MemLay).cellAt 8 = none ∧
+    elemAddr 8 { ptr := 60, stride := -20, shape := 4 } 1 = 44 ∧ entryAddr { ptr := 60, stride := -20, shape := 4 } 1 = 40 ∧
+    elemAddr 8 (bufInfo {} 0 3 4) 2 = entryAddr (bufInfo {} 0 3 4) 2 := by decide
 
 /-- DynamicVector's list constructor holds exactly the given numbers. -/
 theorem dyn_construct_spec (xs : List Int) : dynConstructLoop xs = xs := dynConstructLoop_eq xs
@@ -174,7 +207,7 @@ theorem slice_observation (n : Nat) (s : State) (x b : Nat) (i j : Option Int) (
     (hx : s.xs x = some b) :
     step (.fv n) s (.v (.slice x i j (some st))) =
       (s, showInts (cellsOf (s.read b) (sliceIdx (s.read b).length i j st).1 st (sliceIdx (s.read b).length i j st).2)) := by
-  simp [step, Kind.isVec, vecEff, Kind.isFv, hx, hst, Eff.apply, State.viewVals, cellsOf, View.pos]
+  simp [step, Kind.isVec, vecEff, Kind.isFv, hx, hst, Eff.apply, State.viewVals, cellsOf, View.pos_plain]
 
 example :
     let s0 := (step (.fv 6) {} (.v (.new 0 .list [10, 11, 12, 13, 14, 15]))).1
@@ -253,7 +286,7 @@ theorem sliceview_aliases (n : Nat) (s : State) (hinv : Inv (.fv n) s) (x a b : 
   have hnp : normIndex (sliceIdx n i j st).2 (p : Int) = some p := by
     rw [normIndex_nonneg _ _ (by omega) (by omega)]; simp
   have hposNat : View.pos { blk := b, off := (sliceIdx n i j st).1, step := st, len := (sliceIdx n i j st).2 } p
-      = pos.toNat := rfl
+      = pos.toNat := View.pos_plain _ _ _ _ _ _
   have hpos_lt : pos.toNat < (s.read b).length := by rw [hlen]; omega
   have hnpos : ∀ l : List Int, l.length = n → normIndex l.length pos = some pos.toNat := by
     intro l hl
@@ -377,21 +410,23 @@ theorem converted_buffer_is_a_copy (kd : Kind) (hkd : kd.isVec = true) (s : Stat
     `array.array(typecode, a)`) is a new object: no existing object changes, and the new view denotes cells of the new
     object only. -/
 theorem converted_buffer_is_fresh (kd : Kind) (hkd : kd.isVec = true) (s : State) (a b dt : Nat) (lay : Lay) (vb : View)
-    (hb : s.arrs b = some vb) (hok : (s.viewVals vb).all (dtOk dt) = true) :
+    (hb : s.arrs b = some vb) (hok : (s.viewVals vb).all (dtOk dt) = true) (hfit : lay.fits dt = true) :
     let s1 := (step kd s (.v (.ndt a b dt lay false))).1
     (∀ c, c < s.blocks.length → s1.read c = s.read c) ∧
-    (∃ v, s1.arrs a = some v ∧ v.blk = s.blocks.length ∧ v.dt = dt ∧ v.len = vb.len) := by
+    (∃ v, s1.arrs a = some v ∧ v.blk = s.blocks.length ∧ v.dt = dt ∧ v.len = vb.len ∧ v.lay = lay.memLay ∧
+      s1.viewVals v = s.viewVals vb) := by
   intro s1
   have hs1 : s1 = (s.alloc (stridedMem lay.stride (s.viewVals vb)).1).1.bindA a
       { blk := s.blocks.length, off := (stridedMem lay.stride (s.viewVals vb)).2, step := lay.stride,
-        len := (s.viewVals vb).length, dt := dt } := by
+        len := (s.viewVals vb).length, dt := dt, lay := lay.memLay } := by
     show (step kd s (.v (.ndt a b dt lay false))).1 = _
     rw [step_v kd hkd]
-    simp [vecEff, hb, hok, Eff.apply, alloc_fresh]
+    simp [vecEff, hb, hok, hfit, Eff.apply, alloc_fresh]
   rw [hs1]
-  refine ⟨fun c hc => ?_, ⟨_, bindA_arrs_same _ _ _, rfl, rfl, ?_⟩⟩
+  refine ⟨fun c hc => ?_, ⟨_, bindA_arrs_same _ _ _, rfl, rfl, ?_, rfl, ?_⟩⟩
   · rw [bindA_read, read_alloc_old s _ c hc]
   · simp [State.viewVals]
+  · exact stridedMem_shows lay (s.viewVals vb) s a dt (memLay_rsz_pos lay dt hfit)
 
 example :
     let s0 := (step (.fv 3) {} (.v (.new 0 .list [1, 2, 3]))).1
@@ -522,7 +557,8 @@ theorem operand_kinds_agree (n : Nat) (L : List Int) (st : Int) :
     (Kind.fv n).operand (.buf st) L
       = construct n ((List.range L.length).map (bufEntry (stridedMem st L).1 (stridedMem st L).2 st)) ∧
     Kind.dyn.operand .list L = L := by
-  refine ⟨constructLoop_eq n L, constructLoop_eq n L, constructBuf_eq _ _ _ _ _, dynConstructLoop_eq L⟩
+  refine ⟨constructLoop_eq n L, constructLoop_eq n L, ?_, dynConstructLoop_eq L⟩
+  exact constructBuf_eq n _ {} (by show 0 < 8; omega) _ st L.length (Or.inr ⟨st, rfl⟩)
 
 example : (Kind.fv 3).operand (.buf (-1)) [7, 8] = [7, 8, 0] ∧ (Kind.fv 2).operand (.buf 2) [7, 8, 9] = [7, 8] ∧
     (Kind.fv 2).operand .tuple [7] = [7, 0] := by decide
@@ -635,17 +671,31 @@ theorem all_histories_safe (kd : Kind) (hk : kd.isVec = true) (ops : List Op) :
     (∀ x b, (run kd {} ops).1.xs x = some b → b < (run kd {} ops).1.blocks.length) ∧
     (∀ n, kd = .fv n → ∀ x b, (run kd {} ops).1.xs x = some b → ((run kd {} ops).1.read b).length = n) ∧
     (∀ a v, (run kd {} ops).1.arrs a = some v → v.blk < (run kd {} ops).1.blocks.length ∧
-      ∀ j, j < v.len → 0 ≤ v.off + (j : Int) * v.step ∧ v.pos j < ((run kd {} ops).1.read v.blk).length) := by
+      ∀ j, j < v.len → 0 ≤ v.off + (j : Int) * v.step ∧ v.pos j < ((run kd {} ops).1.read v.blk).length ∧
+        -- … and the byte address `ptr + j*stride` the NumPy-backed C++ vector computes is where that cell starts
+        ∃ c : Nat, v.lay.cellAt (entryAddr v.info j) = some (c : Int) ∧ c < ((run kd {} ops).1.read v.blk).length ∧
+          v.pos j = c) := by
   have h := run_inv kd hk ops {} (inv_init kd)
   refine ⟨h, h.xs_lt, h.xs_len, ?_⟩
   intro a v ha
   have hv := h.arrs_ok a v ha
-  exact ⟨hv.1, fun j hj => ⟨(hv.2.2 j hj).1, hv.pos_lt j hj⟩⟩
+  exact ⟨hv.1, fun j hj => ⟨(hv.2.2.2 j hj).1, hv.pos_lt j hj, hv.byte_addr j hj⟩⟩
 
 example :
     let s := (run (.fv 3) {} [.v (.new 0 .list [1, 2, 3]), .v (.sl 0 0 none none (some (-2))), .v (.aset 0 1 9)]).1
     s.arrs 0 = some { blk := 0, off := 2, step := -2, len := 2 } ∧ s.read 0 = [9, 2, 3] := by
   refine ⟨?_, by decide⟩
+  decide
+
+-- a NumPyVector over the field `x` of packed 12-byte records (every record, backwards): reads and writes hit the records
+example :
+    let s := (run (.fv 3) {} [.v (.new 0 .list [1, 2, 3]), .v (.view 0 0), .v (.ndt 1 0 0 (.q 12 4 true 0) false),
+      .v (.nscale 1 5)]).1
+    s.arrs 1 = some { blk := 1, off := 2, step := -1, len := 3, dt := 0, lay := { rsz := 12, fo := 4 } } ∧
+    s.read 1 = [15, 10, 5] ∧ s.read 0 = [1, 2, 3] ∧
+    (View.info { blk := 1, off := 2, step := -1, len := 3, dt := 0, lay := { rsz := 12, fo := 4 } })
+      = { ptr := 28, stride := -12, shape := 3 } := by
+  refine ⟨?_, by decide, by decide, by decide⟩
   decide
 
 /-! ### tuple vectors -/
